@@ -1102,24 +1102,36 @@ impl R {
                         };
                         V::I(wrap_int(raw, *bits, *signed))
                     }
-                    (NumTy::F64, V::F(l), V::F(r)) => V::F(match op {
-                        Operator::Plus => l + r,
-                        Operator::Minus => l - r,
-                        Operator::Multiply => l * r,
-                        Operator::Divide => l / r,
-                        Operator::Modulo => l % r,
-                        _ => return Err(RErr::Unsup),
-                    }),
-                    (NumTy::F32, V::F(l), V::F(r)) => {
-                        let (l, r) = (*l as f32, *r as f32);
-                        V::F(match op {
+                    (NumTy::F64, V::F(l), V::F(r)) => {
+                        let x = match op {
                             Operator::Plus => l + r,
                             Operator::Minus => l - r,
                             Operator::Multiply => l * r,
                             Operator::Divide => l / r,
                             Operator::Modulo => l % r,
                             _ => return Err(RErr::Unsup),
-                        } as f64)
+                        };
+                        // sign and payload of a computed NaN are unspecified while the engine's comparisons
+                        // (IEEE totalOrder) distinguish them: outside the reference's fragment
+                        if x.is_nan() {
+                            return Err(RErr::Unsup);
+                        }
+                        V::F(x)
+                    }
+                    (NumTy::F32, V::F(l), V::F(r)) => {
+                        let (l, r) = (*l as f32, *r as f32);
+                        let x = match op {
+                            Operator::Plus => l + r,
+                            Operator::Minus => l - r,
+                            Operator::Multiply => l * r,
+                            Operator::Divide => l / r,
+                            Operator::Modulo => l % r,
+                            _ => return Err(RErr::Unsup),
+                        };
+                        if x.is_nan() {
+                            return Err(RErr::Unsup);
+                        }
+                        V::F(x as f64)
                     }
                     _ => return Err(RErr::Unsup),
                 }
@@ -1133,7 +1145,12 @@ impl R {
                     }
                     V::I(-x)
                 }
-                (NumTy::F64 | NumTy::F32, V::F(x)) => V::F(-x),
+                (NumTy::F64 | NumTy::F32, V::F(x)) => {
+                    if x.is_nan() {
+                        return Err(RErr::Unsup);
+                    }
+                    V::F(-x)
+                }
                 _ => return Err(RErr::Unsup),
             },
             R::Is(k, a) => {
